@@ -7,7 +7,8 @@ From Coq Require Import Reals Lra.
 From PV.Lib Require Import RealAux.
 From PV.Model Require Import HelixSpec.
 From PV.Gen Require Import HelixCode.
-From PV.Props Require Import HelixCommon HelixLaws.
+From Coquelicot Require Import Coquelicot.
+From PV.Props Require Import HelixCommon HelixLaws C06Proofs.
 Local Open Scope R_scope.
 
 (* the radius the code works with is the signed radius alpha / kappa of the BESIII field, for either charge *)
@@ -59,6 +60,19 @@ Theorem C06_momentum_tangent : forall atan2 dr phi0 kappa dz tanl x0 y0 z0 x1 y1
   rsigned kappa * sin (phi0' + 0) = - rsigned kappa * px /\ - rsigned kappa * cos (phi0' + 0) = - rsigned kappa * py.
 Proof. exact momentum_tangent. Qed.
 Print Assumptions C06_momentum_tangent.
+
+(* the same as a statement about derivatives: d/ds of the new parametrisation at its reference point (s = 0) is -r times the
+   unit vector of the documented momentum azimuth phi0' + pi/2 (and -r tanl in z): the momentum is tangent to the trajectory,
+   pointing along decreasing s for r > 0 (negative charge) and along increasing s for r < 0 (positive charge) *)
+Theorem C06_tangent_is_momentum_direction : forall atan2 dr phi0 kappa dz tanl x0 y0 z0 x1 y1 z1,
+  let dr' := ndr dr phi0 kappa dz tanl x0 y0 z0 x1 y1 z1 in
+  let phi0' := nphi0 atan2 dr phi0 kappa dz tanl x0 y0 z0 x1 y1 z1 in
+  let dz' := ndz atan2 dr phi0 kappa dz tanl x0 y0 z0 x1 y1 z1 in
+  is_derive (fun t => traj_x dr' phi0' kappa x1 t) 0 (- rsigned kappa * cos (phi0' + PI / 2)) /\
+  is_derive (fun t => traj_y dr' phi0' kappa y1 t) 0 (- rsigned kappa * sin (phi0' + PI / 2)) /\
+  is_derive (fun t => traj_z dz' kappa tanl z1 t) 0 (- rsigned kappa * tanl).
+Proof. intros. apply tangent_is_momentum_direction. Qed.
+Print Assumptions C06_tangent_is_momentum_direction.
 
 (* sign convention derived, not asserted: with B = (0,0,-B0), B0 > 0, the equation of motion and the documented
    momentum azimuth phi0 + pi/2 force the signed radius to have the sign opposite to the charge, i.e. alpha < 0 *)
